@@ -9,7 +9,9 @@ for pid, entries in TABLE.items():
     text = open(log).read() if os.path.exists(log) else ""
     blocks = re.split(r"^== ", text, flags=re.M)[1:]
     for b in blocks:
-        m = re.match(r"(C\d\d) p(\d+): (.*)", b)
+        m = re.match(r"(\w+) p(\d+): (.*)", b)
+        if not m:
+            continue
         i = m.group(2)
         ent = entries.get(i)
         if not ent:
@@ -17,17 +19,19 @@ for pid, entries in TABLE.items():
         caught = re.findall(r"\[(C\d\d) rc=1\]", b)
         missed = re.findall(r"\[(C\d\d) rc=0\]", b)
         caught = sorted(set(caught + ent.get("now_caught_by", [])))
-        name = "%s-%s-%s" % (rnd, pid, ent["slug"])
+        name = "%s-%s-%s" % (rnd, ent.get("property", pid), ent["slug"])
         d = os.path.join("/verif/seeded", name)
         os.makedirs(d, exist_ok=True)
         out = os.path.join(root, pid, "OUT")
+        if not os.path.exists(os.path.join(out, "patch%s.diff" % i)):
+            continue                      # worktree already removed: saved earlier
         shutil.copy(os.path.join(out, "patch%s.diff" % i), os.path.join(d, "patch.diff"))
         for ext in ("cc", "sh", "expect"):
             f = os.path.join(out, "demo%s.%s" % (i, ext))
             if os.path.exists(f):
                 shutil.copy(f, os.path.join(d, "demo.%s" % ext))
-        json.dump({"property": pid, "needs_to_manifest": ent["needs"],
-                   "origin": "independent sub-agent, round %s (three changes per property, obvious candidates excluded%s), given only the property text and a scratch worktree" % (rnd[1:], "; at least one made of two cooperating edits" if rnd == "r3" else ""),
+        json.dump({"property": ent.get("property", pid), "needs_to_manifest": ent["needs"],
+                   "origin": ("independent sub-agent, round 4 (four changes confined to library files no earlier change had touched), given the texts of the twenty properties and a scratch worktree" if rnd == "r4" else "independent sub-agent, round %s (three changes per property, obvious candidates excluded%s), given only the property text and a scratch worktree" % (rnd[1:], "; at least one made of two cooperating edits" if rnd == "r3" else "")),
                    "confirmed": "tools/confirm_seed.sh in the sub-agent's worktree: " + m.group(3).strip(),
                    "ran": ["tools/eval_mut%s.sh (VERIF_REPO=<worktree with the patch>) quick checks" % ("3" if rnd == "r3" else "2")],
                    "caught_by": caught, "not_reported_by": sorted(set(missed) - set(caught)),
